@@ -192,8 +192,11 @@ def iter_own(node: ast.AST, *, into_lambda: bool = True) -> Iterator[ast.AST]:
 
 
 class Model:
-    def __init__(self, root: Optional[str] = None, extra_sources: Optional[Dict[str, str]] = None):
+    def __init__(self, root: Optional[str] = None, extra_sources: Optional[Dict[str, str]] = None, project: bool = False):
         self.extra_sources = extra_sources or {}
+        #: projected model (read by the pin rules): new options of reference functions are fixed at their defaults
+        self.project = project
+        self.new_options: list = []
         self.root = root or repo_root()
         self.pkg_dir = os.path.join(self.root, PKG)
         self.modules: Dict[str, ast.Module] = {}
@@ -231,7 +234,9 @@ class Model:
         from .known_funcs import KNOWN_FUNCS
 
         try:
-            self.canon_stats = canon.canonicalise(self.modules, set(KNOWN_FUNCS) | {f"{m}:{q}" for m in self.extra_sources for q in ()})
+            self.new_options = canon.new_option_params(self.modules)
+            self.canon_stats = canon.canonicalise(self.modules, set(KNOWN_FUNCS) | {f"{m}:{q}" for m in self.extra_sources for q in ()},
+                                                  project=self.project and bool(self.new_options))
         except RecursionError as e:  # pragma: no cover - defensive
             raise AnalysisError(f"canonicalisation failed: {e}") from e
         for tree in self.modules.values():
